@@ -85,8 +85,11 @@ def condition_rules(chk, P):
         ANY = "Iterator::any(Iterator::chain([T]::iter(input_indices), expected_indices), closure({closure#0}))"
         p0 = tab.predicate_table(P, c0) if c0 else set()
         p00 = tab.predicate_table(P, c00) if c00 else set()
-        good = p0 == {(frozenset([(ANY, False)]), "Some(?)"), (frozenset([(ANY, True)]), "None")} and p00 == {(frozenset(), "EntryIndex::indexes(elem(Iterator::chain([T]::iter(input_indices), expected_indices)), elem(Iterator::enumerate([T]::iter(self.signals))).0)")}
-        fm = [[canon(x) for x in P.call_arg_terms(b, bb)] for bb, t in b.calls() if callee_name(t)[0] == "std::iter::Iterator::filter_map"]
+        # the selection is written `filter_map(|..| if !any {Some(..)} else {None})` or `filter(|..| !any).map(..)`
+        keep_fm = p0 == {(frozenset([(ANY, False)]), "Some(?)"), (frozenset([(ANY, True)]), "None")}
+        keep_f = p0 in ({(frozenset(), "Not(%s)" % ANY)}, {(frozenset([(ANY, False)]), "1"), (frozenset([(ANY, True)]), "0")})
+        good = (keep_fm or keep_f) and p00 == {(frozenset(), "EntryIndex::indexes(elem(Iterator::chain([T]::iter(input_indices), expected_indices)), elem(Iterator::enumerate([T]::iter(self.signals))).0)")}
+        fm = [[canon(x) for x in P.call_arg_terms(b, bb)] for bb, t in b.calls() if callee_name(t)[0] == ("std::iter::Iterator::filter" if keep_f and not keep_fm else "std::iter::Iterator::filter_map")]
         good = good and fm == [["Iterator::enumerate([T]::iter(self.signals))", "closure({closure#0})"]]
         chk.require(good, "TAB", "TAB:check_missing_signals:condition", "a header column is missing iff no input/expected index indexes it (exact table, every column)", "check_missing_signals decides by %s / %s over %s" % (sorted(p0, key=str), sorted(p00, key=str), fm))
         errs = [bb for (cb, bb, i, st) in P.constructors("std::result::Result::Err") if cb is b]
@@ -137,6 +140,14 @@ def condition_rules(chk, P):
     b = P.body(CHECKS[2])
     if b is not None:
         pt = tab.predicate_table(P, b)
+        from ..core.prog import selection_of as _sel
+
+        def _m(f):
+            m_ = re.fullmatch(r"Vec::is_empty\((.*)\)", f[0])
+            if m_ and _sel(m_.group(1), "Iterator::enumerate([T]::iter(self.signals))") in (["filter_map"], ["filter", "map"]):
+                return (M, f[1])    # which columns the selection keeps is TAB:check_missing_signals:condition
+            return f
+        pt = set((frozenset(_m(f) for f in fs), sh) for fs, sh in pt)
         chk.require(pt == {(frozenset([(M, False)]), "Err"), (frozenset([(M, True)]), "Ok")}, "TAB", "TAB:check_missing_signals:exact-outcome", "Err iff the list of unbound columns is non-empty", "check_missing_signals decides %s" % sorted(pt, key=str))
     b = P.body(CHECKS[0])
     if b is not None:
